@@ -1,6 +1,8 @@
 package c13
 
 import (
+	"github.com/cosmos/cosmos-sdk/x/params"
+	paramproposal "github.com/cosmos/cosmos-sdk/x/params/types/proposal"
 	"time"
 
 	sdk "github.com/cosmos/cosmos-sdk/types"
@@ -47,6 +49,28 @@ func aggregateStates(h *c07.Host) []sdk.Context {
 	mk(func(ctx sdk.Context) {
 		h.C.App.RVestingKeeper.SetParams(ctx, rvtypes.Params{EnableVesting: true, PerBlockReward: sdk.NewCoins(sdk.NewInt64Coin("aaa", 3), sdk.NewInt64Coin("bbb", 1))})
 	})
+	// 1b: every reward list of a small alphabet that the parameter validators accept (unsorted, zero amounts, three
+	// denominations), set through the real parameter-change handler, with vesting enabled and disabled
+	for _, rw := range []string{
+		`[{"denom":"bbb","amount":"3"},{"denom":"aaa","amount":"1"}]`,
+		`[{"denom":"aaa","amount":"0"},{"denom":"bbb","amount":"2"}]`,
+		`[{"denom":"aaa","amount":"0"}]`,
+		`[{"denom":"ccc","amount":"1"},{"denom":"aaa","amount":"2"},{"denom":"bbb","amount":"0"}]`,
+		`[{"denom":"aaa","amount":"340282366920938463463374607431768211455"}]`,
+	} {
+		for _, en := range []string{"true", "false"} {
+			rw, en := rw, en
+			mk(func(ctx sdk.Context) {
+				hd := params.NewParamChangeProposalHandler(h.C.App.ParamsKeeper)
+				for _, ch := range []paramproposal.ParamChange{{Subspace: rvtypes.ModuleName, Key: "PerBlockReward", Value: rw}, {Subspace: rvtypes.ModuleName, Key: "EnableVesting", Value: en}} {
+					cctx, write := ctx.CacheContext()
+					if err := hd(cctx, paramproposal.NewParameterChangeProposal("t", "d", []paramproposal.ParamChange{ch})); err == nil {
+						write()
+					}
+				}
+			})
+		}
+	}
 	// 2: a module-owned pair with two denominations, an external pair, one disabled
 	mk(func(ctx sdk.Context) {
 		mint(ctx, "acoin", "bcoin", "ccoin")
